@@ -73,7 +73,7 @@ theorem connectBestChain_reject {P : Params} (s : State) (b : Blk) (tip : Blk) (
 
 /-- **an invalid block that extends the tip is a no-op on the chain part** (any source, any state). -/
 theorem processBlock_reject_tip {P : Params} (s : State) (b : Blk) (src : Src)
-    (hinv : ∀ s1, P.exec s1 b ≠ none)
+    (hinv : ∀ s1, storeBlock (unorphan s b) b = some s1 → P.exec (addIndex s1 b src) b ≠ none)
     (tip : Blk) (rest : List Blk) (hbest : s.best = tip :: rest) (hpar : b.parent = tip.id) :
     SameChain s (processBlock P s b src).1 ∧
     ((processBlock P s b src).2 = .orphan ∨ ∃ e, (processBlock P s b src).2 = .err e) := by
@@ -106,7 +106,7 @@ theorem processBlock_reject_tip {P : Params} (s : State) (b : Blk) (src : Src)
                     have h2 : SameChain s1 (addIndex s1 b src) := sameChain_addIndex s1 b src
                     have hb' : (addIndex s1 b src).best = tip :: rest := by
                       rw [h2.1, h1.1, hu.2.2.2.2.1, hbest]
-                    have h3 := connectBestChain_reject (P := P) (addIndex s1 b src) b tip rest hb' hpar (hinv _)
+                    have h3 := connectBestChain_reject (P := P) (addIndex s1 b src) b tip rest hb' hpar (hinv s1 hs1)
                     exact ⟨(h1.trans h2).trans h3.1, h3.2⟩
             obtain ⟨e, he⟩ := key.2
             cases hm : maybeAcceptBlock P (unorphan s b) b src with
@@ -262,7 +262,7 @@ namespace C27
 /-- `maybeAcceptBlock` — the entry used for a block taken out of the orphan pool when its parent
 has arrived — of an invalid block that extends the tip: an error, chain part untouched. -/
 theorem maybeAcceptBlock_reject_tip {P : Params} (s : State) (b : Blk) (src : Src)
-    (hinv : ∀ s1, P.exec s1 b ≠ none)
+    (hinv : ∀ s1, storeBlock s b = some s1 → P.exec (addIndex s1 b src) b ≠ none)
     (tip : Blk) (rest : List Blk) (hbest : s.best = tip :: rest) (hpar : b.parent = tip.id) :
     SameChain s (maybeAcceptBlock P s b src).1 ∧ ∃ e, (maybeAcceptBlock P s b src).2 = .err e := by
   unfold maybeAcceptBlock
@@ -276,7 +276,7 @@ theorem maybeAcceptBlock_reject_tip {P : Params} (s : State) (b : Blk) (src : Sr
         have h1 := sameChain_storeBlock hs1
         have h2 : SameChain s1 (addIndex s1 b src) := sameChain_addIndex s1 b src
         have hb' : (addIndex s1 b src).best = tip :: rest := by rw [h2.1, h1.1, hbest]
-        have h3 := connectBestChain_reject (P := P) (addIndex s1 b src) b tip rest hb' hpar (hinv _)
+        have h3 := connectBestChain_reject (P := P) (addIndex s1 b src) b tip rest hb' hpar (hinv s1 hs1)
         exact ⟨(h1.trans h2).trans h3.1, h3.2⟩
 
 end C27
